@@ -49,6 +49,12 @@ pub fn features(r: &Relation) -> Vec<String> {
     fn walk(r: &Relation, out: &mut BTreeSet<String>) {
         match r {
             Relation::Reduce(red) => {
+                fn has_reduce(r: &Relation) -> bool {
+                    matches!(r, Relation::Reduce(_)) || r.inputs().iter().any(|i| has_reduce(i))
+                }
+                if red.inputs().iter().any(|i| has_reduce(i)) {
+                    out.insert("reduce.below-reduce".to_string());
+                }
                 if red.group_by().is_empty() && red.aggregate().iter().any(|a| !matches!(a.aggregate(), Aggregate::Count | Aggregate::CountDistinct)) {
                     out.insert("reduce.ungrouped.null-on-empty-aggregate".to_string());
                 }
